@@ -233,7 +233,8 @@ pub fn objdump_boundaries(code: &[u8]) -> Option<Vec<usize>> {
         let l = l.trim_start();
         if let Some((addr, _)) = l.split_once(':') {
             if let Ok(a) = usize::from_str_radix(addr.trim(), 16) {
-                if l.contains('\t') {
+                // continuation lines of long instructions carry bytes but no mnemonic
+                if l.matches('\t').count() >= 2 {
                     v.push(a);
                 }
             }
